@@ -646,7 +646,7 @@ func TestVerif_C06(t *testing.T) {
 			o := opts[i]
 			ul := 0
 			if o.comp {
-				ul = []int{1, o.len, 4096, 1 << 30}[e.rnd.Intn(4)]
+				ul = []int{1, o.len, 4096, 1 << 24}[e.rnd.Intn(4)]
 				if ul == 0 {
 					ul = 5
 				}
@@ -700,7 +700,7 @@ func TestVerif_C06(t *testing.T) {
 			}
 			ul := 0
 			if mode == 1 || mode >= 2 && e.rnd.Intn(2) == 0 {
-				ul = 1 + e.rnd.Intn(1<<30)
+				ul = 1 + e.rnd.Intn(1<<24)
 				if e.rnd.Intn(5) == 0 {
 					ul = l + 1
 				}
@@ -757,7 +757,7 @@ func TestVerif_C06(t *testing.T) {
 			l := uint32([]int{0, 50, 33}[e.rnd.Intn(3)])
 			ne := c06Entry{tb: tb, length: l, n: c06Full(tb)}
 			if tb == 2 || tb == 3 {
-				ne.ulen = uint32([]int{0, 1, 50, 1 << 29}[e.rnd.Intn(4)])
+				ne.ulen = uint32([]int{0, 1, 50, 1 << 24}[e.rnd.Intn(4)])
 			}
 			recH(append(append([]c06Entry{}, es...), ne))
 		}
@@ -791,7 +791,7 @@ func TestVerif_C06(t *testing.T) {
 			l := uint32(e.rnd.Intn(300))
 			ne := c06Entry{tb: tb, length: l, n: c06Full(tb)}
 			if tb >= 2 {
-				ne.ulen = uint32(e.rnd.Intn(1 << 30))
+				ne.ulen = uint32(e.rnd.Intn(1 << 24))
 			}
 			es = append(es, ne)
 		}
